@@ -172,7 +172,7 @@ class get_gradient_transform:
             and calls["nanoemoji.color_glyph.map_viewbox_to_font_space"][0].args.view_box == view_box
         ),
     }
-    native = False  # needs lxml elements; covered natively by the end-to-end glyph harness
+    native = False  # needs lxml elements; covered natively by the end-to-end picture checks
 
 
 # ---- gradient stops: every opacity that applies multiplies in; the palette index survives ----
